@@ -30,5 +30,9 @@ func main() {
 		workerMain(*flagBase, *flagDir, *flagMoQ, *flagTLS, *flagMem)
 		return
 	}
+	if *flagReplay != "" {
+		replayMain()
+		return
+	}
 	driverMain()
 }
